@@ -373,6 +373,21 @@ Definition split_report (fuel : nat) (orient axis : Z) (align : Z) (pad : dim)
       | _ => inr 4
       end.
 
+(* `if self.width is not None: return to_dimension(self.width)` (likewise
+   height): an explicit requirement on the split overrides what its children
+   say.  [ov] is that Dimension (an int n is Dimension.exact(n)). *)
+Definition split_report_ov (ov : option ctor_res) (fuel : nat) (orient axis : Z) (align : Z) (pad : dim)
+           (cs : list (dim * dim)) (width : Z) : ctor_res + Z :=
+  match ov with
+  | Some r => inl r
+  | None => split_report fuel orient axis align pad cs width
+  end.
+
+(* VSplit.write_to_screen gives every child the height
+   max(wp.height, min(wp.height, max(heights))); HSplit passes the width on *)
+Definition cross_extent (orient : Z) (cross : Z) (child_prefs : list Z) : Z :=
+  if orient =? 0 then cross else Z.max cross (Z.min cross (py_max child_prefs)).
+
 (* Window._merge_dimensions(dimension, get_preferred, dont_extend); the
    Window's own dimension is given by its raw constructor arguments (the
    *_specified flags), cp = what the UIControl reports (None / an int) *)
@@ -414,6 +429,18 @@ Definition draw (orient : Z) (cs : list dim) (nall : nat) (res : dres) (start av
       l ++ (if remaining >? 0 then [(1, e, remaining)] else [])
   | _ => []
   end.
+
+(* Window.preferred_width / preferred_height: the content's preferred size
+   (None when ignore_content_width/height) plus, for the width, the total
+   width of the margins, merged with the Window's own dimension *)
+Definition window_preferred (axis : Z) (mn mx w p : option Z) (cp : option Z) (de : bool)
+           (margin : Z) (ignore : bool) : ctor_res :=
+  merge_dimensions mn mx w p
+    (if ignore then None
+     else match cp with
+          | Some v => Some (if axis =? 0 then v + margin else v)
+          | None => None
+          end) de.
 
 (* ------------------------------------------------------------------ *)
 (* Wire format *)
@@ -499,20 +526,56 @@ Definition run_split (core : nat -> bool -> list dim -> Z -> dres)
   | _, _, _ => bad_case
   end.
 
-(* several renders of one split object whose children list is edited in
-   between: each step gives the current children (ids into the pool) *)
+(* several renders of one split object; before each render the children
+   list may have been edited (each step gives the current children as ids
+   into the pool) and children may report a different requirement than
+   before (changes (id, new requirement), applied to the pool and kept) *)
+Fixpoint set_nth {T : Type} (l : list T) (k : nat) (v : T) : list T :=
+  match l, k with
+  | [], _ => []
+  | _ :: r, O => v :: r
+  | x :: r, S k' => x :: set_nth r k' v
+  end.
+
+Definition apply_changes (pool : list dim) (chg : list (Z * dim)) : list dim :=
+  fold_left (fun p c => set_nth p (Z.to_nat (fst c)) (snd c)) chg pool.
+
+Definition render_with (fuel : nat) (orient : Z) (done : bool) (pad : dim)
+           (pool : list dim) (avail start : Z) (ids : list Z) (es : list entry) : sx :=
+  let ds := map (entry_dim pool pad) es in
+  let no_children := match ids with [] => true | _ => false end in
+  let res := split_on fuel orient done no_children ds avail in
+  let regs := draw orient (map (lookup pool) ids) (length es) res start avail in
+  L [sx_dres res regs; L (map (fun e => A (entry_code e)) es)].
+
 Fixpoint render_steps (fuel : nat) (orient : Z) (done : bool) (align : Z) (pad : dim)
-         (pool : list dim) (avail start : Z) (c : cache) (steps : list (list Z)) : list sx :=
+         (pool : list dim) (avail start : Z) (c : cache)
+         (steps : list (list (Z * dim) * list Z)) : list sx :=
   match steps with
   | [] => []
-  | ids :: rest =>
+  | (chg, ids) :: rest =>
+      let pool' := apply_changes pool chg in
       let '(es, c') := cache_get align c ids in
-      let ds := map (entry_dim pool pad) es in
-      let no_children := match ids with [] => true | _ => false end in
-      let res := split_on fuel orient done no_children ds avail in
-      let regs := draw orient (map (lookup pool) ids) (length es) res start avail in
-      L [sx_dres res regs; L (map (fun e => A (entry_code e)) es)]
-      :: render_steps fuel orient done align pad pool avail start c' rest
+      render_with fuel orient done pad pool' avail start ids es
+      :: render_steps fuel orient done align pad pool' avail start c' rest
+  end.
+
+Definition ok_dim (r : ctor_res) : dim := match r with COk d => d | _ => flex end.
+
+(* step on the wire: ((ids) ((id rawdim) ...)) *)
+Definition as_change (s : sx) : option (Z * ctor_res) :=
+  match s with
+  | L [A id; r] => match as_rawdim r with Some c => Some (id, c) | None => None end
+  | _ => None
+  end.
+Definition as_step (s : sx) : option (list (Z * ctor_res) * list Z) :=
+  match s with
+  | L [ids; L chg] =>
+      match as_str ids, map_opt as_change chg with
+      | Some i, Some c => Some (c, i)
+      | _, _ => None
+      end
+  | _ => None
   end.
 
 Definition run_C12 (c : sx) : sx :=
@@ -538,22 +601,25 @@ Definition run_C12 (c : sx) : sx :=
       | None => bad_case
       end
   | L [A 5; A orient; dn; A align; pad; L pool; A avail; A start; A fuel; L steps] =>
-      match as_bool dn, as_rawdim pad, map_opt as_rawdim pool, map_opt as_str steps with
+      match as_bool dn, as_rawdim pad, map_opt as_rawdim pool, map_opt as_step steps with
       | Some done, Some rp, Some rpool, Some sts =>
-          match collect_dims (rp :: rpool) with
-          | inl (p :: pl) => L (render_steps (nat_of_Z fuel) orient done align p pl avail start None sts)
+          match collect_dims (rp :: rpool ++ flat_map (fun st => map snd (fst st)) sts) with
+          | inl (p :: _) =>
+              let pl := map ok_dim rpool in
+              let sts' := map (fun st => (map (fun c => (fst c, ok_dim (snd c))) (fst st), snd st)) sts in
+              L (render_steps (nat_of_Z fuel) orient done align p pl avail start None sts')
           | inl [] => bad_case
           | inr e => sx_ctor e
           end
       | _, _, _, _ => bad_case
       end
-  | L [A 6; A orient; A axis; A align; pad; L ws; L hs; A width; A fuel] =>
-      match as_rawdim pad, map_opt as_rawdim ws, map_opt as_rawdim hs with
-      | Some rp, Some rws, Some rhs =>
+  | L [A 6; A orient; A axis; A align; pad; L ws; L hs; A width; A fuel; ov] =>
+      match as_rawdim pad, map_opt as_rawdim ws, map_opt as_rawdim hs, as_opt as_rawdim ov with
+      | Some rp, Some rws, Some rhs, Some rov =>
           match collect_dims (rp :: rws), collect_dims rhs with
           | inl (p :: dw), inl dh =>
               if Nat.eqb (length dw) (length dh) then
-                match split_report (nat_of_Z fuel) orient axis align p (combine dw dh) width with
+                match split_report_ov rov (nat_of_Z fuel) orient axis align p (combine dw dh) width with
                 | inl r => sx_ctor r
                 | inr code => L [A code]
                 end
@@ -562,12 +628,18 @@ Definition run_C12 (c : sx) : sx :=
           | _, inr e => sx_ctor e
           | _, _ => bad_case
           end
-      | _, _, _ => bad_case
+      | _, _, _, _ => bad_case
       end
   | L [A 7; L [a; b; c; d]; cp; de] =>
       match as_opt as_Z a, as_opt as_Z b, as_opt as_Z c, as_opt as_Z d, as_opt as_Z cp, as_bool de with
       | Some mn, Some mx, Some w, Some p, Some cpv, Some dev => sx_ctor (merge_dimensions mn mx w p cpv dev)
       | _, _, _, _, _, _ => bad_case
+      end
+  | L [A 9; A axis; L [a; b; c; d]; cp; de; A margin; ig] =>
+      match as_opt as_Z a, as_opt as_Z b, as_opt as_Z c, as_opt as_Z d, as_opt as_Z cp, as_bool de, as_bool ig with
+      | Some mn, Some mx, Some w, Some p, Some cpv, Some dev, Some igv =>
+          sx_ctor (window_preferred axis mn mx w p cpv dev margin igv)
+      | _, _, _, _, _, _, _ => bad_case
       end
   | L [A 3; ws; A n] =>
       match as_str ws with
